@@ -29,6 +29,24 @@ OptimizerStage: TypeAlias = Literal[
 ]
 
 
+def _rebuild(expr, new_operands):
+    """Re-create ``expr`` with rewritten children
+
+    A ``Fused`` expression also keeps its members in a plain list operand.
+    Those members reference the group's external dependencies by name, so a
+    dependency that was rewritten must be substituted inside the group as
+    well; otherwise the fused sub-graph keeps pointing at keys that no longer
+    exist in the graph.
+    """
+    if "Fused" in type(expr).__name__:
+        out = expr
+        for old, new in zip(expr.operands, new_operands):
+            if isinstance(old, Expr) and old._name != new._name:
+                out = out.substitute(old, new)
+        return out
+    return type(expr)(*new_operands)
+
+
 def _unpack_collections(o):
     if isinstance(o, Expr):
         return o
@@ -286,7 +304,7 @@ class Expr:
                 new_operands.append(new)
 
             if changed:
-                expr = type(expr)(*new_operands)
+                expr = _rebuild(expr, new_operands)
                 continue
             else:
                 break
@@ -357,7 +375,7 @@ class Expr:
                 new_operands.append(new)
 
             if changed:
-                expr = type(expr)(*new_operands)
+                expr = _rebuild(expr, new_operands)
 
             break
 
@@ -409,7 +427,7 @@ class Expr:
             new_operands.append(new)
 
         if changed:
-            out = type(out)(*new_operands)
+            out = _rebuild(out, new_operands)
 
         return out
 
